@@ -69,6 +69,10 @@ type Case struct {
 	Want     string     `json:"want_module,omitempty"`
 	ViaImp   bool       `json:"via_import,omitempty"`
 	WantDate string     `json:"import_date,omitempty"`
+	// revsub: revisions of one module that each include the submodule "sub"
+	RevMods []RevMod `json:"revision_modules,omitempty"`
+	SubRevs []string `json:"submodule_revisions,omitempty"` // "" = a text without revision
+	Nested  bool     `json:"nested,omitempty"`              // sub includes sub2, which the modules include too
 	// split
 	Whole *ymodel.Set `json:"whole,omitempty"`
 	Split *ymodel.Set `json:"split,omitempty"`
@@ -565,9 +569,167 @@ func checkSplit(c Case, o *ev.Outcome) {
 	}
 }
 
+// RevMod is one revision of the module "rm".
+type RevMod struct {
+	Rev     string `json:"revision"`
+	SubDate string `json:"include_revision_date,omitempty"` // "" = include without revision-date
+}
+
+func (c Case) revsubTexts() []ymodel.Source {
+	var out []ymodel.Source
+	for i, m := range c.RevMods {
+		inc := "include sub;"
+		if m.SubDate != "" {
+			inc = "include sub { revision-date " + m.SubDate + "; }"
+		}
+		if c.Nested {
+			inc += " include sub2;"
+		}
+		out = append(out, ymodel.Source{Name: "rm@" + m.Rev + ".yang", Text: fmt.Sprintf("module rm {\n namespace \"urn:rm\";\n prefix r;\n %s\n revision %s;\n leaf top%d { type string; }\n}\n", inc, m.Rev, i)})
+	}
+	for j, d := range c.SubRevs {
+		rev, name, inc := "", "sub.yang", ""
+		if d != "" {
+			rev, name = " revision "+d+";", "sub@"+d+".yang"
+		}
+		if c.Nested {
+			inc = " include sub2;"
+		}
+		out = append(out, ymodel.Source{Name: name, Text: fmt.Sprintf("submodule sub {\n belongs-to rm { prefix r; }%s%s\n leaf sub%d { type string; }\n}\n", inc, rev, j)})
+	}
+	if c.Nested {
+		out = append(out, ymodel.Source{Name: "sub2.yang", Text: "submodule sub2 {\n belongs-to rm { prefix r; }\n leaf nested { type string; }\n}\n"})
+	}
+	return out
+}
+
+// checkRevSub: every revision of the module holds its own leaf, the leaf of exactly the submodule text its
+// include denotes (dated: that revision; undated: the latest loaded), and the nested submodule's leaf once.
+func checkRevSub(c Case, o *ev.Outcome) {
+	srcs := c.revsubTexts()
+	o.NonTrivial = len(c.RevMods) >= 2
+	if len(c.SubRevs) > 1 {
+		o.Class("revsub/several-submodule-revisions")
+	}
+	if c.Nested {
+		o.Class("revsub/nested-include")
+	}
+	latestSub := -1
+	for j, d := range c.SubRevs {
+		if latestSub < 0 || d > c.SubRevs[latestSub] {
+			latestSub = j
+		}
+	}
+	perms := c.Perm
+	if len(perms) == 0 {
+		idx := make([]int, len(srcs))
+		for i := range idx {
+			idx[i] = i
+		}
+		perms = [][]int{idx}
+	}
+	for _, perm := range perms {
+		ms := yang.NewModules()
+		for _, i := range perm {
+			if i < 0 || i >= len(srcs) {
+				o.OutOfClaim = "bad permutation"
+				return
+			}
+			if err := ms.Parse(srcs[i].Text, srcs[i].Name); err != nil {
+				o.Violate("distinct-revisions-accepted", "C13/revsub/load-rejected", "load order %v: %s rejected: %v", perm, srcs[i].Name, err)
+				return
+			}
+		}
+		var errs []error
+		if !ev.Guard(o, "Process", func() { errs = ms.Process() }) {
+			return
+		}
+		if len(errs) > 0 {
+			o.Violate("include-is-inline", "C13/revsub/rejected", "load order %v: processing failed: %v", perm, errs)
+			return
+		}
+		for i, m := range c.RevMods {
+			want := []string{fmt.Sprintf("top%d", i)}
+			subIdx := latestSub
+			if m.SubDate != "" {
+				for j, d := range c.SubRevs {
+					if d == m.SubDate {
+						subIdx = j
+					}
+				}
+			}
+			want = append(want, fmt.Sprintf("sub%d", subIdx))
+			if c.Nested {
+				want = append(want, "nested")
+			}
+			sort.Strings(want)
+			mod := ms.Modules["rm@"+m.Rev]
+			if mod == nil {
+				o.Violate("dated-name-is-exact", "C13/revsub/module-missing", "load order %v: rm@%s is not filed", perm, m.Rev)
+				return
+			}
+			var got []string
+			for k := range yang.ToEntry(mod).Dir {
+				got = append(got, k)
+			}
+			sort.Strings(got)
+			if fmt.Sprint(got) != fmt.Sprint(want) {
+				which := "later"
+				if i == 0 {
+					which = "first"
+				}
+				how := "dated-include"
+				if m.SubDate == "" {
+					how = "undated-include"
+				}
+				o.Violate("include-is-inline", "C13/revsub/tree-of-"+which+"-revision/"+how, "load order %v: the tree of rm@%s holds %v, expected %v (its own leaf and what its include of sub denotes)", perm, m.Rev, got, want)
+				return
+			}
+		}
+	}
+}
+
+func genRevSub(t *rapid.T) Case {
+	c := Case{Kind: "revsub", Nested: rapid.IntRange(0, 2).Draw(t, "nested") == 0}
+	subDates := []string{"", "2019-05-05", "2021-12-31"}
+	k := rapid.IntRange(1, 2).Draw(t, "submodule-texts")
+	seen := map[string]bool{}
+	for j := 0; j < k; j++ {
+		d := rapid.SampledFrom(subDates).Draw(t, "submodule-revision")
+		if d == "" && k > 1 {
+			d = "2019-05-05" // a text without revision beside dated ones is (a)'s business
+		}
+		if !seen[d] {
+			seen[d] = true
+			c.SubRevs = append(c.SubRevs, d)
+		}
+	}
+	n := rapid.IntRange(1, 3).Draw(t, "module-revisions")
+	for i := 0; i < n; i++ {
+		m := RevMod{Rev: dates[i]}
+		if rapid.Bool().Draw(t, "dated-include") {
+			d := c.SubRevs[rapid.IntRange(0, len(c.SubRevs)-1).Draw(t, "include-date")]
+			m.SubDate = d
+		}
+		c.RevMods = append(c.RevMods, m)
+	}
+	nn := len(c.revsubTexts())
+	idx := make([]int, nn)
+	for i := range idx {
+		idx[i] = i
+	}
+	c.Perm = append(c.Perm, append([]int(nil), idx...))
+	for i := 0; i < 5; i++ {
+		c.Perm = append(c.Perm, schema.Order(t, nn))
+	}
+	return c
+}
+
 func check(c Case) (o ev.Outcome) {
 	o.Sample = c
 	switch c.Kind {
+	case "revsub":
+		ev.Guard(&o, "revsub", func() { checkRevSub(c, &o) })
 	case "revisions":
 		ev.Guard(&o, "revisions", func() { checkRevisions(c, &o) })
 	case "files":
@@ -833,7 +995,9 @@ func genSplit(t *rapid.T) Case {
 }
 
 func gen(t *rapid.T) Case {
-	switch rapid.IntRange(0, 2).Draw(t, "generator") {
+	switch rapid.IntRange(0, 3).Draw(t, "generator") {
+	case 3:
+		return genRevSub(t)
 	case 0:
 		return genRevisions(t)
 	case 1:
@@ -847,10 +1011,10 @@ func TestCheck(t *testing.T) {
 	ev.Run(t, ev.Spec[Case]{
 		ID:    "C13",
 		Level: "exploration",
-		Rule: "three generators. (a) revisions: 1-5 module headers with a name from {foo, bar} and 0-3 revision dates (texts with equal name and latest revision are identical), plus 0-3 importers with and without revision-date; every load permutation for up to 4 texts (24), 12 sampled for 5. Oracle: exactly one text per (name, latest revision) is accepted in every order, the bare key and undated imports denote the latest loaded revision, dated keys and dated imports the exact one. " +
+		Rule: "four generators. (d) revisions with submodules: 1-3 revisions of one module, each including the submodule sub with or without revision-date, 1-2 texts of sub (with a nested include of a second submodule in a third of the cases), six load orders. Oracle: the tree of every revision holds its own leaf, the leaf of exactly the submodule text its include denotes, and the nested submodule's leaf once. (a) revisions: 1-5 module headers with a name from {foo, bar} and 0-3 revision dates (texts with equal name and latest revision are identical), plus 0-3 importers with and without revision-date; every load permutation for up to 4 texts (24), 12 sampled for 5. Oracle: exactly one text per (name, latest revision) is accepted in every order, the bare key and undated imports denote the latest loaded revision, dated keys and dated imports the exact one. " +
 			"(b) files: 1-3 search-path directories (temporary, outside /repo and /verif) with up to 7 files from {name.yang, three name@DATE.yang, near misses: nameX@.., Xname@.., name@2020-1-01.yang, ...yang.bak, ...YANG, name-ext@.., name@DATEx.yang, name.yang.orig, nam.yang, name2.yang, name@.yang, name@20220101.yang; sometimes a directory of that name}; every file declares the wanted module with a namespace naming its own path; fetched by Read, by an undated import and by a dated import. Oracle: the module comes from the first directory holding a candidate, name.yang else the latest date (dated import: the exact file); with no candidate the fetch fails. " +
 			"(c) split: a generated single module and a random partition of its body into 1-3 submodules (all definitions move, nodes stay or move; submodules include each other where they refer to each other, mutual includes allowed with the ignore-circular option). Oracle: tree, types, attributes and identity lists of the module equal those of the unsplit module. " +
-			"Non-trivial = (a) two texts sharing a name or a duplicate, (b) >= 2 files, (c) >= 1 submodule; distinct by case",
+			"Non-trivial = (a) two texts sharing a name or a duplicate, (b) >= 2 files, (c) >= 1 submodule, (d) >= 2 module revisions; distinct by case",
 		Assumptions: []string{
 			"recursive 'dir/...' search order and belongs-to prefixes that differ from the module's prefix are not generated",
 			"a dated import is only judged when the file (or loaded module) of exactly that revision exists",
